@@ -217,11 +217,32 @@ for _base in (20, 40, 60, 80, 100, 120):
 
 # ---------------------------------------------------------------------------
 # sibling relations
-# combined orbit+clock = orbit block ++ clock block without the repeated satellite ID
-#   (combined, orbit, clock, satellite-ID bits, orbit block bits, clock block bits)
-SSR_TRIPLES = [("1060", "1057", "1058", 6, 135, 76), ("1066", "1063", "1064", 5, 134, 75)]
+# composite messages: combined block == shared prefix ++ rest of block A ++ rest of block B
+#   (combined, A, B, prefix bits, prefix fields, A block bits, B block bits)
+#   SSR: combined orbit+clock = orbit block ++ clock block without the repeated satellite ID
+#   network RTK: combined geometric+ionospheric = geometric block (with IODE / IOD) ++ ionospheric difference,
+#   sharing satellite ID, ambiguity status flag and non-sync count (RTCM 10403.3 tables 3.5-32..34, 3.5-69..71)
+SSR_TRIPLES = [("1060", "1057", "1058", 6, 1, 135, 76), ("1066", "1063", "1064", 5, 1, 134, 75)]
 for _base in (20, 40, 60, 80, 100, 120):
-    SSR_TRIPLES.append((f"4076_{_base + 3:03d}", f"4076_{_base + 1:03d}", f"4076_{_base + 2:03d}", 6, 135, 76))
+    SSR_TRIPLES.append((f"4076_{_base + 3:03d}", f"4076_{_base + 1:03d}", f"4076_{_base + 2:03d}", 6, 1, 135, 76))
+SSR_TRIPLES.append(("1017", "1016", "1015", 11, 3, 36, 28))
+SSR_TRIPLES.append(("1039", "1038", "1037", 11, 3, 36, 28))
+
+# parallel messages: the satellite / signal blocks have the same layout behind a satellite ID of possibly different
+# width (GPS 6 bits / GLONASS 5 bits); identical block bits must decode to identical values, position by position
+#   (message, satellite-ID bits, block bits incl. ID)   - groups of parallel messages
+PARALLEL = [
+    [("1057", 6, 135), ("1063", 5, 134)] + [(f"4076_{b + 1:03d}", 6, 135) for b in (20, 40, 60, 80, 100, 120)],
+    [("1058", 6, 76), ("1064", 5, 75)] + [(f"4076_{b + 2:03d}", 6, 76) for b in (20, 40, 60, 80, 100, 120)],
+    [("1060", 6, 205), ("1066", 5, 204)] + [(f"4076_{b + 3:03d}", 6, 205) for b in (20, 40, 60, 80, 100, 120)],
+    [("1062", 6, 28), ("1068", 5, 27)] + [(f"4076_{b + 4:03d}", 6, 28) for b in (20, 40, 60, 80, 100, 120)],
+    [("1061", 6, 12), ("1067", 5, 11)] + [(f"4076_{b + 7:03d}", 6, 12) for b in (20, 40, 60, 80, 100, 120)],
+    [("1015", 6, 28), ("1037", 6, 28)],
+    [("1016", 6, 36), ("1038", 6, 36)],
+    [("1017", 6, 53), ("1039", 6, 53)],
+    [("1030", 6, 49), ("1031", 6, 49), ("1303", 6, 49), ("1304", 6, 49)],
+    [("1034", 6, 66), ("1035", 6, 66)],
+]
 
 # extended observables contain the basic ones: per-satellite field widths, extension fields in parentheses (negative)
 EXTENDED = {
